@@ -17,9 +17,12 @@ Section ExprInd.
   Hypothesis HRe : forall e s c p b pp, P e -> P (ERechunk e s c p b pp).
   Hypothesis HEx : forall e axes, P e -> P (EExpandDims e axes).
   Hypothesis HCo : forall e axis rest, P e -> Forall P rest -> P (EConcat e axis rest).
-  Hypothesis HBr : forall e shp, P e -> P (EBroadcastTo e shp).
+  Hypothesis HBr : forall e shp c, P e -> P (EBroadcastTo e shp c).
   Hypothesis HAr : forall a b c ch, P (EArange a b c ch).
   Hypothesis HSrc : forall s c r nd isz ot, P (ESource s c r nd isz ot).
+  Hypothesis HSt : forall e axis rest, P e -> Forall P rest -> P (EStack e axis rest).
+  Hypothesis HFu : forall id shp c, P (EFull id shp c).
+  Hypothesis HTR : forall e c p, P e -> P (ETasksRechunk e c p).
 
   Fixpoint expr_ind' (e : expr) : P e :=
     match e with
@@ -42,9 +45,18 @@ Section ExprInd.
                 | [] => Forall_nil P
                 | x :: t => Forall_cons x (expr_ind' x) (go t)
                 end) rest)
-    | EBroadcastTo e' shp => HBr e' shp (expr_ind' e')
+    | EBroadcastTo e' shp c => HBr e' shp c (expr_ind' e')
     | EArange a b c ch => HAr a b c ch
     | ESource s c r nd isz ot => HSrc s c r nd isz ot
+    | EStack e' axis rest =>
+        HSt e' axis rest (expr_ind' e')
+            ((fix go (l : list expr) : Forall P l :=
+                match l with
+                | [] => Forall_nil P
+                | x :: t => Forall_cons x (expr_ind' x) (go t)
+                end) rest)
+    | EFull id shp c => HFu id shp c
+    | ETasksRechunk e' c p => HTR e' c p (expr_ind' e')
     end.
 End ExprInd.
 
@@ -113,6 +125,12 @@ Proof.
   - apply andb_true_iff in H. apply slice_shape_nonneg. apply IH. tauto.
 Qed.
 
+Lemma insert_at_nonneg k v l : 0 <= v -> nonneg_shape l -> nonneg_shape (insert_at k v l).
+Proof.
+  unfold nonneg_shape, insert_at. intros Hv H. rewrite <- (firstn_skipn k l) in H.
+  apply Forall_app in H. destruct H as [H1 H2]. apply Forall_app. split; [exact H1 | constructor; assumption].
+Qed.
+
 Lemma wfb_nonneg e : wfb e = true -> nonneg_shape (eshape e).
 Proof.
   induction e using expr_ind'; cbn [wfb eshape]; intros Hw.
@@ -138,6 +156,10 @@ Proof.
   - constructor; [lia | constructor].
   - apply andb_true_iff in Hw. destruct Hw as [Hs _]. pose proof (src_wfb_nonneg s Hs).
     destruct r; [apply slice_shape_nonneg|]; assumption.
+  - repeat (apply andb_true_iff in Hw; destruct Hw as [Hw ?]).
+    apply insert_at_nonneg; [lia | apply IHe; exact Hw].
+  - apply nonnegb_iff. exact Hw.
+  - apply IHe. exact Hw.
 Qed.
 
 (* ---------------------------------------------------------------------- *)
@@ -1405,12 +1427,14 @@ Section Sound.
 
   Lemma den_shape e : shape (D e) = eshape e.
   Proof.
-    induction e using expr_ind'; cbn [den eshape aslice atranspose aelemwise arechunk aexpand_dims aconcat abroadcast_to aarange shape];
+    induction e using expr_ind'; cbn [den eshape aslice atranspose aelemwise arechunk aexpand_dims aconcat abroadcast_to aarange astack afull shape];
       try reflexivity; try (rewrite IHe; reflexivity).
     - f_equal. rewrite map_map. apply map_ext_in. intros a Ha. rewrite Forall_forall in H. apply H. exact Ha.
     - exact IHe.
     - rewrite IHe. f_equal. rewrite map_map. apply map_ext_in. intros a Ha. rewrite Forall_forall in H. apply H. exact Ha.
     - destruct r; cbn [aslice shape]; rewrite srcden_shape; reflexivity.
+    - rewrite IHe, map_length. reflexivity.
+    - exact IHe.
   Qed.
 
   (* ------------------------------------------------------------------ *)
@@ -1459,7 +1483,7 @@ Section Sound.
   Theorem rule_slice_identity_sound e e' :
     rule_slice_identity e = Some e' -> wfb e = true -> aeq (D e) (D e').
   Proof.
-    destruct e as [| |x ix o| | | | | | | |]; try discriminate. cbn [rule_slice_identity wfb].
+    destruct e as [| |x ix o| | | | | | | | | | |]; try discriminate. cbn [rule_slice_identity wfb].
     intros H Hw. destruct (Nat.eqb (length ix) (endim x) && forallb is_colon ix) eqn:E; [|discriminate].
     injection H as <-. apply andb_true_iff in E. destruct E as [El Ec]. apply Nat.eqb_eq in El.
     apply andb_true_iff in Hw. destruct Hw as [Hw _].
@@ -1486,8 +1510,8 @@ Section Sound.
   Theorem rule_slice_slice_sound e e' :
     rule_slice_slice e = Some e' -> wfb e = true -> aeq (D e) (D e').
   Proof.
-    destruct e as [| |y b ob| | | | | | | |]; try discriminate.
-    destruct y as [| |x a oa| | | | | | | |]; try discriminate. cbn [rule_slice_slice wfb eshape].
+    destruct e as [| |y b ob| | | | | | | | | | |]; try discriminate.
+    destruct y as [| |x a oa| | | | | | | | | | |]; try discriminate. cbn [rule_slice_slice wfb eshape].
     intros H Hw. destruct (fuse_tuple a b) as [c|] eqn:Ec; [|discriminate]. injection H as <-.
     apply andb_true_iff in Hw. destruct Hw as [Hw Hb]. apply andb_true_iff in Hw. destruct Hw as [Hw Ha].
     pose proof (wfb_nonneg x Hw) as Hn.
@@ -1511,8 +1535,8 @@ Section Sound.
   Theorem rule_transpose_transpose_sound e e' :
     rule_transpose_transpose e = Some e' -> wfb e = true -> aeq (D e) (D e').
   Proof.
-    destruct e as [| | |y q| | | | | | |]; try discriminate.
-    destruct y as [| | |x p| | | | | | |]; try discriminate. cbn [rule_transpose_transpose wfb eshape].
+    destruct e as [| | |y q| | | | | | | | | |]; try discriminate.
+    destruct y as [| | |x p| | | | | | | | | |]; try discriminate. cbn [rule_transpose_transpose wfb eshape].
     intros H Hw. injection H as <-.
     apply andb_true_iff in Hw. destruct Hw as [Hw Hq]. apply andb_true_iff in Hw. destruct Hw as [Hw Hp].
     unfold endim in Hp, Hq. cbn [eshape] in Hq. unfold transpose_shape in Hq at 1. rewrite pickn_length in Hq.
@@ -1529,7 +1553,7 @@ Section Sound.
   Theorem rule_transpose_identity_sound e e' :
     rule_transpose_identity e = Some e' -> wfb e = true -> aeq (D e) (D e').
   Proof.
-    destruct e as [| | |x axes| | | | | | |]; try discriminate. cbn [rule_transpose_identity wfb].
+    destruct e as [| | |x axes| | | | | | | | | |]; try discriminate. cbn [rule_transpose_identity wfb].
     intros H Hw. destruct (natlist_eqb axes (seq 0 (endim x))) eqn:E; [|discriminate]. injection H as <-.
     assert (axes = seq 0 (endim x)) as ->.
     { clear -E. revert E. generalize (seq 0 (endim x)) as l. induction axes as [|a axes IH]; intros [|b l] E; cbn in E; try discriminate; [reflexivity|].
@@ -1546,8 +1570,8 @@ Section Sound.
   Theorem rule_rechunk_rechunk_sound e e' :
     rule_rechunk_rechunk e = Some e' -> aeq (D e) (D e') /\ echunks e' = echunks e.
   Proof.
-    destruct e as [| | | | |y spec c prm bal2 pp2| | | | |]; try discriminate.
-    destruct y as [| | | | |x spec1 c1 prm1 bal1 pp1| | | | |]; try discriminate. cbn [rule_rechunk_rechunk].
+    destruct e as [| | | | |y spec c prm bal2 pp2| | | | | | | |]; try discriminate.
+    destruct y as [| | | | |x spec1 c1 prm1 bal1 pp1| | | | | | | |]; try discriminate. cbn [rule_rechunk_rechunk].
     destruct pp1; [discriminate|]. destruct (bal1 && negb bal2); [discriminate|].
     intros H. injection H as <-. split; [apply aeq_refl | reflexivity].
   Qed.
@@ -1555,7 +1579,7 @@ Section Sound.
   Theorem rule_rechunk_noop_sound e e' :
     rule_rechunk_noop e = Some e' -> aeq (D e) (D e') /\ echunks e' = echunks e.
   Proof.
-    destruct e as [| | | | |x spec c prm bal pp| | | | |]; try discriminate. cbn [rule_rechunk_noop].
+    destruct e as [| | | | |x spec c prm bal pp| | | | | | | |]; try discriminate. cbn [rule_rechunk_noop].
     destruct (echunks x) as [cx|] eqn:Ex; [|discriminate].
     destruct (negb bal && zll_eqb c cx) eqn:E; [|discriminate]. intros H. injection H as <-.
     split; [apply aeq_refl|]. rewrite Ex. cbn [echunks]. f_equal.
@@ -1590,12 +1614,13 @@ Section Sound.
   Theorem rule_slice_elemwise_sound e e' :
     rule_slice_elemwise e = Some e' -> wfb e = true -> aeq (D e) (D e').
   Proof.
-    destruct e as [| |y ix o| | | | | | | |]; try discriminate.
-    destruct y as [| | | |op args| | | | | |]; try discriminate. cbn [rule_slice_elemwise wfb eshape].
+    destruct e as [| |y ix o| | | | | | | | | | |]; try discriminate.
+    destruct y as [| | | |op args| | | | | | | | |]; try discriminate. cbn [rule_slice_elemwise wfb eshape].
     set (O := bshape_all (map eshape args)). intros H Hw.
     apply andb_true_iff in Hw. destruct Hw as [Hw Hok]. apply andb_true_iff in Hw. destruct Hw as [Hwa Hbc].
     rewrite forallb_forall in Hwa, Hbc.
     rewrite (pad_index_full ix (length O)) in H by (apply idx_okb_length; exact Hok).
+    destruct ((op <? 0) && existsb is_int ix); [discriminate|].
     set (ia := fun a => elem_arg_index ix (eshape a) O).
     destruct (omap _ args) as [args'|] eqn:Eo; [|discriminate]. injection H as <-.
     apply omap_Forall2 in Eo.
@@ -1627,8 +1652,8 @@ Section Sound.
   Theorem rule_slice_arange_sound e e' :
     rule_slice_arange e = Some e' -> wfb e = true -> aeq (D e) (D e').
   Proof.
-    destruct e as [| |y ix o| | | | | | | |]; try discriminate.
-    destruct y as [| | | | | | | | |start step count ch|]; try discriminate.
+    destruct e as [| |y ix o| | | | | | | | | | |]; try discriminate.
+    destruct y as [| | | | | | | | |start step count ch| | | |]; try discriminate.
     destruct ix as [|i ix]; try discriminate. destruct i as [z|s|]; try discriminate.
     destruct ix; try discriminate. cbn [rule_slice_arange wfb eshape idx_okb].
     intros H Hw. destruct (indices s count) as [[a b] k] eqn:Hi. injection H as <-.
@@ -1670,8 +1695,8 @@ Section Sound.
   Theorem rule_slice_transpose_sound e e' :
     rule_slice_transpose e = Some e' -> wfb e = true -> aeq (D e) (D e').
   Proof.
-    destruct e as [| |y ix o| | | | | | | |]; try discriminate.
-    destruct y as [| | |x axes| | | | | | |]; try discriminate. cbn [rule_slice_transpose wfb eshape].
+    destruct e as [| |y ix o| | | | | | | | | | |]; try discriminate.
+    destruct y as [| | |x axes| | | | | | | | | |]; try discriminate. cbn [rule_slice_transpose wfb eshape].
     intros H Hw. apply andb_true_iff in Hw. destruct Hw as [Hw Hok]. apply andb_true_iff in Hw. destruct Hw as [Hw Hp].
     destruct (existsb _ ix); [discriminate|].
     assert (length ix = endim x) as Hlix.
@@ -1725,8 +1750,8 @@ Section Sound.
   Theorem rule_transpose_elemwise_sound e e' :
     rule_transpose_elemwise e = Some e' -> wfb e = true -> aeq (D e) (D e').
   Proof.
-    destruct e as [| | |y axes| | | | | | |]; try discriminate.
-    destruct y as [| | | |op args| | | | | |]; try discriminate. cbn [rule_transpose_elemwise wfb eshape].
+    destruct e as [| | |y axes| | | | | | | | | |]; try discriminate.
+    destruct y as [| | | |op args| | | | | | | | |]; try discriminate. cbn [rule_transpose_elemwise wfb eshape].
     set (O := bshape_all (map eshape args)).
     destruct (forallb _ args) eqn:Eall; [|discriminate]. intros H Hw. injection H as <-.
     apply andb_true_iff in Hw. destruct Hw as [_ Hp]. unfold endim in Hp. cbn [eshape] in Hp. fold O in Hp.
@@ -1770,7 +1795,7 @@ Section Sound.
   Theorem rule_transpose_down_sound e e' :
     rule_transpose_down e = Some e' -> wfb e = true -> aeq (D e) (D e').
   Proof.
-    unfold rule_transpose_down. destruct e as [| | |x axes| | | | | | |]; try discriminate.
+    unfold rule_transpose_down. destruct e as [| | |x axes| | | | | | | | | |]; try discriminate.
     destruct (is_transpose x); [apply rule_transpose_transpose_sound|].
     destruct (rule_transpose_identity (ETranspose x axes)) as [r|] eqn:E.
     - intros H. injection H as <-. apply rule_transpose_identity_sound. exact E.
@@ -1784,8 +1809,8 @@ Section Sound.
     (forall y ix o, e = ESlice y ix o -> ints_nonnegb ix = true) ->
     aeq (D e) (D e').
   Proof.
-    destruct e as [| |y ix o| | | | | | | |]; try discriminate.
-    destruct y as [| | | | | | | | | |s chunks region nd isz other]; try discriminate.
+    destruct e as [| |y ix o| | | | | | | | | | |]; try discriminate.
+    destruct y as [| | | | | | | | | |s chunks region nd isz other| | |]; try discriminate.
     cbn [rule_slice_fromarray wfb]. intros H Hw Hnn. specialize (Hnn _ _ _ eq_refl).
     apply andb_true_iff in Hw. destruct Hw as [Hw Hok]. apply andb_true_iff in Hw. destruct Hw as [Hws Hwr].
     destruct (existsb _ ix) eqn:Enone; [discriminate|].
@@ -1859,16 +1884,16 @@ Section Sound.
   Theorem rule_rechunk_fromarray_sound e e' :
     rule_rechunk_fromarray e = Some e' -> aeq (D e) (D e') /\ echunks e' = echunks e.
   Proof.
-    destruct e as [| | | | |y spec c prm bal pp| | | | |]; try discriminate.
-    destruct y as [| | | | | | | | | |s chunks region nd isz other]; try discriminate. cbn [rule_rechunk_fromarray].
+    destruct e as [| | | | |y spec c prm bal pp| | | | | | | |]; try discriminate.
+    destruct y as [| | | | | | | | | |s chunks region nd isz other| | |]; try discriminate. cbn [rule_rechunk_fromarray].
     destruct (pp || negb nd); [discriminate|]. intros H. injection H as <-. split; [apply aeq_refl | reflexivity].
   Qed.
 
   Theorem rule_rechunk_elemwise_sound e e' :
     rule_rechunk_elemwise e = Some e' -> aeq (D e) (D e').
   Proof.
-    destruct e as [| | | | |y spec c prm bal pp| | | | |]; try discriminate.
-    destruct y as [| | | |op args| | | | | |]; try discriminate. cbn [rule_rechunk_elemwise].
+    destruct e as [| | | | |y spec c prm bal pp| | | | | | | |]; try discriminate.
+    destruct y as [| | | |op args| | | | | | | | |]; try discriminate. cbn [rule_rechunk_elemwise].
     destruct (negb (spec =? 0)); [discriminate|].
     destruct (omap _ args) as [args'|] eqn:Eo; [|discriminate]. intros H. injection H as <-.
     apply omap_Forall2 in Eo. cbn [den arechunk].
@@ -1892,8 +1917,8 @@ Section Sound.
     (forall x axes ix o, e = ESlice (EExpandDims x axes) ix o -> xnormb axes 0 ix = true) ->
     aeq (D e) (D e').
   Proof.
-    destruct e as [| |y ix o| | | | | | | |]; try discriminate.
-    destruct y as [| | | | | |x axes| | | |]; try discriminate. cbn [rule_slice_expand_dims wfb eshape].
+    destruct e as [| |y ix o| | | | | | | | | | |]; try discriminate.
+    destruct y as [| | | | | |x axes| | | | | | |]; try discriminate. cbn [rule_slice_expand_dims wfb eshape].
     intros H Hw Hnorm. specialize (Hnorm _ _ _ _ eq_refl).
     apply andb_true_iff in Hw. destruct Hw as [Hw Hok]. apply andb_true_iff in Hw. destruct Hw as [Hw Hlt].
     apply andb_true_iff in Hw. destruct Hw as [Hw Hinc].
@@ -1958,8 +1983,10 @@ End Sound.
 Lemma mu_pos e : (1 <= mu e)%nat.
 Proof. induction e using expr_ind'; cbn [mu]; lia. Qed.
 
-Lemma mu_elemwise op args : mu (EElemwise op args) = S (mu_sum args).
-Proof. reflexivity. Qed.
+Lemma mu_elemwise op args : mu (EElemwise op args) = S (length args + mu_sum args).
+Proof.
+  cbn [mu]. f_equal. induction args as [|x l IH]; [reflexivity|]. cbn [length mu_sum]. rewrite IH. lia.
+Qed.
 
 Lemma mk_getitem_mu x ix y : mk_getitem x ix = Some y -> (mu y <= 3 * mu x)%nat.
 Proof.
@@ -1969,27 +1996,28 @@ Qed.
 
 Theorem rule_slice_identity_mu e e' : rule_slice_identity e = Some e' -> (mu e' < mu e)%nat.
 Proof.
-  destruct e as [| |x ix o| | | | | | | |]; try discriminate. cbn [rule_slice_identity].
+  destruct e as [| |x ix o| | | | | | | | | | |]; try discriminate. cbn [rule_slice_identity].
   destruct (_ && _); [|discriminate]. intros H. injection H as <-. cbn [mu]. pose proof (mu_pos x). lia.
 Qed.
 
 Theorem rule_slice_slice_mu e e' : rule_slice_slice e = Some e' -> (mu e' < mu e)%nat.
 Proof.
-  destruct e as [| |y b ob| | | | | | | |]; try discriminate.
-  destruct y as [| |x a oa| | | | | | | |]; try discriminate. cbn [rule_slice_slice].
+  destruct e as [| |y b ob| | | | | | | | | | |]; try discriminate.
+  destruct y as [| |x a oa| | | | | | | | | | |]; try discriminate. cbn [rule_slice_slice].
   destruct (fuse_tuple a b); [|discriminate]. intros H. injection H as <-. cbn [mu]. pose proof (mu_pos x). lia.
 Qed.
 
 Theorem rule_slice_elemwise_mu e e' : rule_slice_elemwise e = Some e' -> (mu e' < mu e)%nat.
 Proof.
-  destruct e as [| |y ix o| | | | | | | |]; try discriminate.
-  destruct y as [| | | |op args| | | | | |]; try discriminate. cbn [rule_slice_elemwise].
+  destruct e as [| |y ix o| | | | | | | | | | |]; try discriminate.
+  destruct y as [| | | |op args| | | | | | | | |]; try discriminate. cbn [rule_slice_elemwise].
+  destruct ((op <? 0) && _); [discriminate|].
   destruct (omap _ args) as [args'|] eqn:Eo; [|discriminate]. intros H. injection H as <-.
   apply omap_Forall2 in Eo.
   change (mu (ESlice (EElemwise op args) ix o)) with (3 * mu (EElemwise op args))%nat.
   rewrite !mu_elemwise.
-  assert (mu_sum args' <= 3 * mu_sum args)%nat as Hs.
-  { induction Eo as [|a a' l l' Ha _ IH]; [cbn; lia|]. cbn [mu_sum].
+  assert (mu_sum args' <= 3 * mu_sum args /\ length args' = length args)%nat as [Hs Hl].
+  { induction Eo as [|a a' l l' Ha _ [IH1 IH2]]; [cbn; lia|]. cbn [mu_sum length].
     assert (mu a' <= 3 * mu a)%nat.
     { destruct (is_const a); [injection Ha as <-; lia | apply (mk_getitem_mu _ _ _ Ha)]. }
     lia. }
@@ -1998,8 +2026,8 @@ Qed.
 
 Theorem rule_slice_transpose_mu e e' : rule_slice_transpose e = Some e' -> (mu e' < mu e)%nat.
 Proof.
-  destruct e as [| |y ix o| | | | | | | |]; try discriminate.
-  destruct y as [| | |x axes| | | | | | |]; try discriminate. cbn [rule_slice_transpose].
+  destruct e as [| |y ix o| | | | | | | | | | |]; try discriminate.
+  destruct y as [| | |x axes| | | | | | | | | |]; try discriminate. cbn [rule_slice_transpose].
   destruct (existsb _ ix); [discriminate|].
   destruct (mk_getitem x _) as [sliced|] eqn:Eg; [|discriminate].
   pose proof (mk_getitem_mu _ _ _ Eg) as Hm. pose proof (mu_pos x) as Hx.
@@ -2009,36 +2037,36 @@ Qed.
 
 Theorem rule_transpose_transpose_mu e e' : rule_transpose_transpose e = Some e' -> (mu e' < mu e)%nat.
 Proof.
-  destruct e as [| | |y q| | | | | | |]; try discriminate.
-  destruct y as [| | |x p| | | | | | |]; try discriminate. cbn [rule_transpose_transpose].
+  destruct e as [| | |y q| | | | | | | | | |]; try discriminate.
+  destruct y as [| | |x p| | | | | | | | | |]; try discriminate. cbn [rule_transpose_transpose].
   intros H. injection H as <-. cbn [mu]. lia.
 Qed.
 
 Theorem rule_transpose_identity_mu e e' : rule_transpose_identity e = Some e' -> (mu e' < mu e)%nat.
 Proof.
-  destruct e as [| | |x axes| | | | | | |]; try discriminate. cbn [rule_transpose_identity].
+  destruct e as [| | |x axes| | | | | | | | | |]; try discriminate. cbn [rule_transpose_identity].
   destruct (natlist_eqb _ _); [|discriminate]. intros H. injection H as <-. cbn [mu]. lia.
 Qed.
 
 Theorem rule_rechunk_rechunk_mu e e' : rule_rechunk_rechunk e = Some e' -> (mu e' < mu e)%nat.
 Proof.
-  destruct e as [| | | | |y spec c prm bal2 pp2| | | | |]; try discriminate.
-  destruct y as [| | | | |x spec1 c1 prm1 bal1 pp1| | | | |]; try discriminate. cbn [rule_rechunk_rechunk].
+  destruct e as [| | | | |y spec c prm bal2 pp2| | | | | | | |]; try discriminate.
+  destruct y as [| | | | |x spec1 c1 prm1 bal1 pp1| | | | | | | |]; try discriminate. cbn [rule_rechunk_rechunk].
   destruct pp1; [discriminate|]. destruct (bal1 && negb bal2); [discriminate|].
   intros H. injection H as <-. cbn [mu]. lia.
 Qed.
 
 Theorem rule_rechunk_noop_mu e e' : rule_rechunk_noop e = Some e' -> (mu e' < mu e)%nat.
 Proof.
-  destruct e as [| | | | |x spec c prm bal pp| | | | |]; try discriminate. cbn [rule_rechunk_noop].
+  destruct e as [| | | | |x spec c prm bal pp| | | | | | | |]; try discriminate. cbn [rule_rechunk_noop].
   destruct (echunks x); [|discriminate]. destruct (_ && _); [|discriminate].
   intros H. injection H as <-. cbn [mu]. lia.
 Qed.
 
 Theorem rule_slice_arange_mu e e' : rule_slice_arange e = Some e' -> (mu e' < mu e)%nat.
 Proof.
-  destruct e as [| |y ix o| | | | | | | |]; try discriminate.
-  destruct y as [| | | | | | | | |start step count ch|]; try discriminate.
+  destruct e as [| |y ix o| | | | | | | | | | |]; try discriminate.
+  destruct y as [| | | | | | | | |start step count ch| | | |]; try discriminate.
   destruct ix as [|i ix]; try discriminate. destruct i as [z|s|]; try discriminate.
   destruct ix; try discriminate. cbn [rule_slice_arange].
   destruct (indices s count) as [[a b] k]. intros H. injection H as <-. cbn [mu]. lia.
@@ -2055,17 +2083,18 @@ Theorem mu_monotone_unary e e' :
   (forall axes, mu (ETranspose e' axes) < mu (ETranspose e axes))%nat /\
   (forall s c p b pp, mu (ERechunk e' s c p b pp) < mu (ERechunk e s c p b pp))%nat /\
   (forall axes, mu (EExpandDims e' axes) < mu (EExpandDims e axes))%nat /\
-  (forall shp, mu (EBroadcastTo e' shp) < mu (EBroadcastTo e shp))%nat.
+  (forall shp c, mu (EBroadcastTo e' shp c) < mu (EBroadcastTo e shp c))%nat /\
+  (forall c p, mu (ETasksRechunk e' c p) < mu (ETasksRechunk e c p))%nat.
 Proof. intros H. repeat split; intros; cbn [mu]; lia. Qed.
 
 Theorem mu_monotone_elemwise op l1 e e' l2 :
   (mu e' < mu e)%nat -> (mu (EElemwise op (l1 ++ e' :: l2)) < mu (EElemwise op (l1 ++ e :: l2)))%nat.
-Proof. intros H. rewrite !mu_elemwise, !mu_sum_app. cbn [mu_sum]. lia. Qed.
+Proof. intros H. rewrite !mu_elemwise, !mu_sum_app, !app_length. cbn [mu_sum length]. lia. Qed.
 
 Theorem rule_slice_expand_dims_mu e e' : rule_slice_expand_dims e = Some e' -> (mu e' < mu e)%nat.
 Proof.
-  destruct e as [| |y ix o| | | | | | | |]; try discriminate.
-  destruct y as [| | | | | |x axes| | | |]; try discriminate. cbn [rule_slice_expand_dims].
+  destruct e as [| |y ix o| | | | | | | | | | |]; try discriminate.
+  destruct y as [| | | | | |x axes| | | | | | |]; try discriminate. cbn [rule_slice_expand_dims].
   destruct (expand_input_index _ _ _) as [iin|]; [|discriminate].
   destruct (if forallb is_colon iin then Some x else mk_getitem x iin) as [sliced|] eqn:Es; [|discriminate].
   assert (mu sliced <= 3 * mu x)%nat as Hm.
@@ -2075,13 +2104,13 @@ Qed.
 
 Theorem rule_transpose_elemwise_mu e e' : rule_transpose_elemwise e = Some e' -> (mu e' <= mu e + mu e)%nat.
 Proof.
-  destruct e as [| | |y axes| | | | | | |]; try discriminate.
-  destruct y as [| | | |op args| | | | | |]; try discriminate. cbn [rule_transpose_elemwise].
+  destruct e as [| | |y axes| | | | | | | | | |]; try discriminate.
+  destruct y as [| | | |op args| | | | | | | | |]; try discriminate. cbn [rule_transpose_elemwise].
   destruct (forallb _ args); [|discriminate]. intros H. injection H as <-.
   change (mu (ETranspose (EElemwise op args) axes)) with (S (mu (EElemwise op args))).
   rewrite !mu_elemwise.
   assert (mu_sum (map (fun a => if is_const a then a else ETranspose a axes) args) <= 2 * mu_sum args)%nat.
   { induction args as [|a args IH]; [cbn; lia|]. cbn [map mu_sum]. pose proof (mu_pos a).
     destruct (is_const a); cbn [mu]; lia. }
-  lia.
+  rewrite map_length. lia.
 Qed.
